@@ -30,6 +30,9 @@ Catalogue ==
        GraphObj("two-triangles", G(6, <<<<0, 1>>, <<1, 2>>, <<0, 2>>, <<3, 4>>, <<4, 5>>, <<3, 5>>>>)),
        GraphObj("path3+isolated", G(5, <<<<0, 1>>, <<1, 2>>>>)),
        GraphObj("digon", G(2, <<<<0, 1>>, <<0, 1>>>>)),
+       GraphObj("digon+triangle", G(5, <<<<0, 1>>, <<0, 1>>, <<2, 3>>, <<3, 4>>, <<2, 4>>>>)),
+       GraphObj("two-digons", G(4, <<<<0, 1>>, <<0, 1>>, <<2, 3>>, <<2, 3>>>>)),
+       GraphObj("digon-on-a-path", G(4, <<<<0, 1>>, <<1, 2>>, <<1, 2>>, <<2, 3>>>>)),
        GraphObj("triangle+double-edge", G(3, <<<<0, 1>>, <<1, 2>>, <<0, 2>>, <<1, 2>>>>)),
        GraphObj("tests8", G(8, <<<<0, 1>>, <<1, 2>>, <<2, 3>>, <<3, 4>>, <<4, 5>>, <<5, 6>>, <<6, 7>>,
                                  <<0, 7>>, <<1, 6>>, <<2, 5>>>>)),
@@ -182,18 +185,7 @@ BorderRec(o) ==
 
 (* C10: crossable loop / path on a frame.  Segments are the lattice edges (in Lattice order);  *)
 (* a segment is horizontal iff its endpoints are consecutive point numbers.                     *)
-Horizontal(g, e) == g.edges[e][2] = g.edges[e][1] + 1
-Joined(g, A, s, t) ==
-    /\ s # t
-    /\ \E p \in Ends(g, s) \cap Ends(g, t) :
-          \/ Deg(g, A, p) = 2
-          \/ (Deg(g, A, p) = 4 /\ Horizontal(g, s) = Horizontal(g, t))
-RECURSIVE Strand(_, _, _)
-Strand(g, A, S) == LET N == {t \in A \ S : \E s \in S : Joined(g, A, s, t)}
-                   IN  IF N = {} THEN S ELSE Strand(g, A, S \cup N)
-Crossable(g, A, cyc) ==
-    A = {} \/ ( /\ \A p \in V(g) : Deg(g, A, p) \in (IF cyc THEN {0, 2, 4} ELSE {0, 1, 2, 4})
-                /\ Strand(g, A, {CHOOSE s \in A : TRUE}) = A )
+(* Horizontal, Joined, Strand, Crossable: see GraphDefs *)
 CrossObjs ==
     LET dims == IF Quick THEN {<<0, 0>>, <<0, 1>>, <<1, 0>>, <<1, 1>>, <<1, 2>>, <<2, 1>>, <<2, 2>>}
                 ELSE {<<0, 0>>, <<0, 1>>, <<1, 0>>, <<0, 2>>, <<1, 1>>, <<1, 2>>, <<2, 1>>, <<2, 2>>, <<1, 3>>, <<3, 1>>}
